@@ -13,11 +13,11 @@ CLAIMED = {
    text="Seeded search over suite x mode x keys x info/psk/psk_id x traffic; every run compares enc, key, base nonce, exporter secret, every ciphertext and every export with a reference model written from RFC 9180 (validated at start-up against the RFC's base-mode vectors), lets each side open what the other seals, and injects one fault: a receiver differing in skR/info/psk/psk_id/mode/pkS must fail setup or fail every open and export different secrets; RFC 9180 5.1 PSK rule cases must be refused; an entropy error must not yield a context.",
    note="Trusts crypto/ecdh, x/crypto hkdf/chacha20poly1305, stdlib AES-GCM; model's PSK/auth paths have no published vector in this sandbox (base mode has); inner KEM of the two hybrid KEMs is circl's own."),
  "C10": dict(engine="codecsim", level="fault_enumeration", ref="DESIGN.md §3 C10",
-   technique="deterministic fault injection on encodings: encode -> faulty medium (tear, extend, bit flip, length-field rewrite, splice) -> decode, with enumeration of fault families per entry point and a recover/watchdog oracle",
+   technique="deterministic fault injection on encodings: encode -> faulty medium (tear, extend, bit flip, length-field rewrite, splice) -> decode, with enumeration of fault families per entry point and a recover/watchdog oracle; receiver-object reuse histories (a refused or accepted input must not make the receiver panic or decode the next input differently)",
    text="Every registered decoding / verifying / decapsulating / opening entry point (list in the evidence file) receives valid encodings corrupted by an enumerated family of storage/transport faults: every truncation length, nil/empty/1 byte, sizes +-1/+-2/+-16, appended bytes, all-zero/all-0xFF, every 16/32-bit length-field rewrite at every offset, format-aware faults, single-bit flips (all when affordable), plus seeded random batches and splices. Oracle: no panic, no hang (watchdog), library-made encodings are accepted. Enumerates faults of sampled encodings, not all byte strings.",
    note="Documented fixed-length panics are avoided by driving the error-returning scheme-level API; entry points that cannot report failure are out of scope; uncovered syntactic candidates are listed in the evidence."),
  "C09": dict(engine="codecsim", level="fault_enumeration", ref="DESIGN.md §3 C09",
-   technique="deterministic fault injection on encodings with a canonical-form and independent group-membership oracle; all single-bit flips and format-aware faults enumerated per sampled valid encoding",
+   technique="deterministic fault injection on encodings with a canonical-form and independent group-membership oracle; all single-bit flips and format-aware faults enumerated per sampled valid encoding; receiver-object reuse (faulted input then the valid encoding into one long-lived receiver must decode as into a fresh one)",
    text="For each decoder of group elements / keys named in the property: every single-bit flip and every format-aware fault (coordinate+p, x=p-1/p/p+1, flag bits, infinity with payload, unused bits, ML-KEM coefficients >= q) of sampled valid encodings (incl. identities reached by arithmetic) is decoded; acceptance requires byte-identical re-serialisation in the same format and an independent membership test ((r-1)P+P=O for BLS12-381, crypto/elliptic for NIST curves, on-curve for Goldilocks/FourQ, order check after curve4q cofactor clearing); library-made encodings must be accepted.",
    note="Decoders whose tests pin prefix parsing (bls12381 SetBytes) are judged on the parsed prefix; BLS12-381 membership uses the library's own group law (C13 assumed)."),
  "C15": dict(engine="histsim", level="exploration", ref="DESIGN.md §3 C15",
@@ -25,15 +25,15 @@ CLAIMED = {
    text="Long-lived SHA-3/SHAKE/TurboSHAKE states, xof.XOF objects, K12 states (lanes 1, 2, 4; customisation strings), reused expander objects, 2-/4-way Keccak states and reused Ascon ciphers are driven through seeded histories; every output byte range is compared with a plain one-shot reference model of the specification (pinned to published vectors at start-up), clones must agree and be independent, Reset must forget, lanes must not matter; Ascon Seal = model, Open inverts (also in place / after a dst prefix) and any single-bit change of key, nonce, AD, ciphertext or tag, or truncation, returns an error and no plaintext.",
    note="Models trusted after their fixture checks (x/crypto/sha3, RFC 9861 / K12 I-D, RFC 9380, LWC Ascon KATs); internal/sha3 and the K12 lane knob are reached through build-time overlay shims, nothing is committed to /repo."),
  "C01": dict(engine="netsim", level="exploration", ref="DESIGN.md §3 C01",
-   technique="deterministic simulation: responder/initiator/auditor nodes over a faulty transport (bit flips, edits, fills, misdelivery, length faults), a simulated disk (responder restart from its marshalled key) and an entropy device with short reads; oracles on agreement, purity, tamper safety, implicit rejection and restart equivalence",
+   technique="deterministic simulation: responder/initiator/auditor nodes over a faulty transport (bit flips, edits, fills, misdelivery, length faults), a simulated disk (responder restart from its marshalled key) and an entropy device with short reads; oracles on agreement, purity, tamper safety, implicit rejection and restart equivalence; every buffer handed to an unmarshaler is recycled by its owner as soon as the call returns; rejection-value dependence (ML-KEM / Kyber z, FrodoKEM s)",
    text="Seeded sessions against every KEM scheme (kem/schemes, the HPKE hybrid and HPKE X-Wing): keys, ciphertexts and secrets are re-derived by an auditor and must be identical; sizes equal the advertised ones; the responder decapsulates with its original key and with a key restarted from disk and must agree; intact ciphertexts give the encapsulated secret; altered ciphertexts never do unless the alteration is confined to a raw X25519/X448 share that decodes to the same u (computed from the TLS drafts' layout with big integers); ML-KEM/Kyber/FrodoKEM return no error and a secret that changes with the ciphertext and with z.",
    note="Secrets are compared for inequality (2^-128); HPKE hybrid Encapsulate (documented not-implemented) is only driven deterministically."),
  "C02": dict(engine="netsim", level="exploration", ref="DESIGN.md §3 C02",
-   technique="deterministic simulation: signer (restartable, stored key can be corrupted) -> faulty transport -> verifier, BLS signers with an aggregator, entropy device behind hedged signing; per-field faults plus enumeration of every single-bit flip and truncation length of one signature per scheme",
+   technique="deterministic simulation: signer (restartable, stored key can be corrupted) -> faulty transport -> verifier, BLS signers with an aggregator, entropy device behind hedged signing; per-field faults plus enumeration of every single-bit flip and truncation length of one signature per scheme; a verifier node that reloads received keys into one long-lived key object; every context position altered in turn; independent oracles: byte-for-byte comparison with crypto/ed25519 (pure, ctx, ph) and ML-DSA Verify_internal / Sign_internal over the FIPS 204 message representative built by the harness (overlay exports)",
    text="For all sign/schemes plus Ed25519ctx/ph, Ed448ph and BLS in both groups: honest signatures verify, have the advertised size and are byte-identical from the original and the restarted signer; then exactly one fault hits (pk, msg, ctx, mode or sig): bit flip, truncation, appended bytes, S+L, zeros, another session's signature, another signer's key, altered/over-long context, another mode (incl. pure/ctx verification of the prehash), a bit flipped in the public half of the signer's stored key, dropped/duplicated/mis-attributed aggregate shares, entropy faults; verification must return false and never panic. Directed part enumerates all single-bit flips and all truncation lengths of one signature per kind.",
    note="Appended bytes to public keys are no-panic only (documented prefix parsing); sampled, not exhaustive."),
  "C17": dict(engine="netsim", level="exploration", ref="DESIGN.md §3 C17",
-   technique="deterministic simulation: dealer, share holders / players and combiner; crash faults choose the alive subset, the transport shuffles, duplicates and corrupts shares, holders restart from marshalled shares; enumeration of all subsets for small (l,k)",
+   technique="deterministic simulation: dealer, share holders / players and combiner; crash faults choose the alive subset, the transport shuffles, duplicates and corrupts shares, holders restart from marshalled shares; enumeration of all subsets for small (l,k); key rotation (new shares loaded into objects that still hold the previous deal), share objects that already signed, recycled buffers",
    text="Shamir/Feldman over four groups and Shoup threshold RSA over fixture keys: every dealt share verifies against the commitment and an altered one does not; any alive set of at least t+1 (resp. k) distinct intact shares, in any arrival order, recovers exactly the secret (resp. yields a signature crypto/rsa verifies under PKCS#1 v1.5 and PSS); smaller sets are refused. Directed part enumerates all subsets for l<=4 (thorough l<=6); seeded part samples l up to 30, blinded/unblinded, cached/uncached, restarts and corruption.",
    note="Combiner removes duplicates first; crypto/rsa is the signature oracle; keys are fixtures."),
  "C16": dict(engine="netsim", level="exploration", ref="DESIGN.md §3 C16",
@@ -41,15 +41,15 @@ CLAIMED = {
    text="OPRF over 4 suites x 3 modes: with intact delivery the client's outputs equal the server's FullEvaluate (so they do not depend on blinds or batch position) and VerifyFinalize holds, also when finalising twice or sharing a blind object; in verifiable modes any altered evaluated element, proof scalar, public key, info or blinded element makes Finalize fail. zk/dleq (single, batch), zk/dl and zk/qndleq: honest proofs verify; every altered component / statement / context and every false statement with degenerate values (zero challenge or response, identity elements, non-unit statement elements, prover-chosen SecParam) is rejected. simot: the receiver obtains exactly the chosen message and cannot open the other.",
    note="One recorded known finding (Qn-DLEQ prover-supplied SecParam). Alterations are judged at the level of decoded components (ristretto255 scalar decoding is lenient by tested design). RFC 9497 byte vectors are left to the repository's own test."),
  "C18": dict(engine="netsim", level="exploration", ref="DESIGN.md §3 C18",
-   technique="deterministic simulation: client / signer / verifier nodes with reference verifiers (crypto/rsa, big-exponent RFC 8017 model); blinded messages, blind signatures and signatures cross a faulty transport; split entropy streams fix salt and preparation while the blind varies; entropy errors; reuse of finalisation state",
+   technique="deterministic simulation: client / signer / verifier nodes with reference verifiers (crypto/rsa, big-exponent RFC 8017 model); blinded messages, blind signatures and signatures cross a faulty transport; split entropy streams fix salt and preparation while the blind varies; entropy errors; reuse of finalisation state; second representatives s+N / z+N; metadata slices with live spare capacity; protocol objects reused with a refilled metadata buffer; tripwire on the process-wide entropy source during calls that take a reader",
    text="Blind, blind-sign, finalise over fixture keys (1024..4096 bits, 8k+1-bit moduli, safe primes) for the four RSABSSA variants and the partially blind variant: the final signature verifies under the library, under crypto/rsa.VerifyPSS and under an RFC 8017 reference with the derived exponent; equal salt and preparation randomness with different blinds give identical signatures; altered / trivial / mis-sized blind signatures make Finalize fail (also after retransmission and after a prior success); the signer refuses inputs of wrong length or not below the modulus; on every delivered (message, signature) pair, corrupted or not, the library verifier agrees with the reference.",
    note="pssref is validated against crypto/rsa at start-up; the derived exponent follows the draft's DerivePublicKey text."),
  "C19": dict(engine="netsim", level="exploration", ref="DESIGN.md §3 C19",
-   technique="deterministic simulation: clients, 2..255 aggregator nodes and a collector; every protocol message is marshalled and re-parsed on its link; per-link corruption / replacement / truncation, a nonce altered for one aggregator, malicious share perturbation, report loss, aggregator restart between preparation rounds; plain-integer aggregate as reference",
+   technique="deterministic simulation: clients, 2..255 aggregator nodes and a collector; every protocol message is marshalled and re-parsed on its link; per-link corruption / replacement / truncation, a nonce altered for one aggregator, malicious share perturbation, report loss, aggregator restart between preparation rounds; plain-integer aggregate as reference; client-side measurements outside the valid set, a client that refills its randomness buffer while a report is queued, prep messages stripped of their seed, circuits on both sides of the NTT threshold (63..200 gadget calls)",
    text="For Count, Sum, SumVec, Histogram and MultihotCountVec with generated parameters and 2..16 (thorough: up to 255) aggregators: intact reports are accepted by every aggregator and the unsharded aggregate equals the plain aggregate of exactly the accepted reports (also when unsharded twice and when an aggregator restarts from its marshalled preparation state); a report hit by one fault (input share flip/truncate/swap, public share flip, per-link nonce change, prep share flip/duplication, prep message flip, malicious perturbation of a share) is rejected during preparation and contributes nothing; all messages round-trip through marshalling; constructors return an error, without panicking, for fewer than two aggregators, zero chunk lengths and a Sum bound that does not fit the field.",
    note="Rejection is asserted only for faults the VDAF guarantees to detect (see assumptions in the evidence); FLP soundness error ignored."),
  "C20": dict(engine="netsim", level="exploration", ref="DESIGN.md §3 C20",
-   technique="deterministic simulation: authority, encryptor and key-holder nodes; keys, ciphertexts and policies marshalled / printed and re-parsed on every hop; ciphertext corruption (incl. enumerated single-bit flips), truncation, extension, delivery to unqualified holders, holder restart, entropy short reads; policy-semantics evaluator as reference model",
+   technique="deterministic simulation: authority, encryptor and key-holder nodes; keys, ciphertexts and policies marshalled / printed and re-parsed on every hop; ciphertext corruption (incl. enumerated single-bit flips), truncation, extension, delivery to unqualified holders, holder restart, entropy short reads; policy-semantics evaluator as reference model; policy-only histories (one policy object observed repeatedly: Satisfaction rounds interleaved with printing, up to 12 leaves)",
    text="Generated policy formulas (and/or/not, nesting, repeated labels, single leaves; up to 7 leaves over a 3x3 alphabet) are printed in several styles, parsed, used to encrypt, extracted again from the ciphertext and printed/re-parsed; for every holder (attribute maps incl. missing labels) Decrypt returns exactly the message iff the evaluator of the stated semantics says the attributes satisfy the policy, and Satisfaction / CouldDecrypt agree with it without the key; a corrupted, truncated or extended ciphertext never decrypts to a different message; keys survive marshalling.",
    note="Formula x assignment space is sampled by the generator; the simulator contributes the parties, serialisation on every hop and the corruption faults. Pairing arithmetic is trusted (C13 not claimed)."),
  "C14": dict(engine="confsim", level="exploration", ref="DESIGN.md §3 C14",
@@ -57,7 +57,7 @@ CLAIMED = {
    text="The simulator's replay-equality check applied across build / CPU configurations: every plan of workloads c14prim (fp25519, fp448, x25519, x448, ed25519, ed448, goldilocks, fourq, curve4q, p384, csidh, sidh, sike, ML-KEM, Kyber, Dilithium, ML-DSA, SHAKE, K12, keccakf1600 x2/x4, Frodo, X-Wing with edge-biased operands) and C01, C02, C07, C08, C15, C16 (faults steer execution into rejection paths) must give the same event-log digest in all six configurations. A difference is reproduced, checked for self-determinism of both configurations, bisected to the first differing event and reported with the plan as replay file.",
    note="Field results are compared in canonical form; arm64 back-ends cannot run here; tkn20 excluded (unordered map iteration); GODEBUG feature switches honoured by x/sys/cpu on this machine."),
  "C11": dict(engine="histsim+schedsim", level="exploration", ref="DESIGN.md §2.4, §3 C11",
-   technique="deterministic simulation: (a) seeded object histories with deliberate aliasing / reuse / decode-into-used-object against a value model; (b) seeded scheduler over source-instrumented copies of the library (pre-emption at any statement, biased to just after shared writes) with a sequential-equivalence oracle; (c) the same schedules in a -race build with ThreadSanitizer as oracle (hand-off invisible to the race detector)",
+   technique="deterministic simulation: (a) seeded object histories with deliberate aliasing / reuse / decode-into-used-object against a value model; (b) seeded scheduler over source-instrumented copies of the library (pre-emption at any statement, biased to just after shared writes) with a sequential-equivalence oracle; (c) the same schedules in a -race build with ThreadSanitizer as oracle (hand-off invisible to the race detector); pre-emption right after the k-th sync / atomic operation of a task (publish-then-fill windows); first-use families (scheme registries in a cold process, CP-ABE with per-run labels and a late reference); readers family: every call that takes a randomness source runs with a tripwire on crypto/rand.Reader",
    text="Histories: pools of long-lived group / curve / key / polynomial / sharing objects are driven through aliasing-heavy operation sequences; after each step the receiver equals the value-model prediction computed on fresh objects, no other object changed, decoding into a used object equals decoding into a fresh one, and Generator/Identity/Order/Params still return their original bytes even after returned objects were mutated. Schedules: 2..4 caller tasks perform read-only calls (public-key derivation, sign, verify, encapsulate, decapsulate, HPKE setup, OPRF evaluation, threshold signing, group constants) on one shared object set while the seeded scheduler pre-empts them at planned statements; every call must return what it returns alone, and the race detector must report nothing.",
    note="Instrumentation is generated at check time by yieldgen (go build -overlay), nothing is committed to /repo; library-internal goroutines (tss/rsa parallel blinding) are not scheduled; Prio3 instances are single-owner by design and not run concurrently."),
 }
